@@ -427,9 +427,19 @@ class CompletionLog:
                     k = names.index("cancelled") if "cancelled" in names else len(names)
                     site = ":cancelled-before-start" if "started" not in names[:k] else ":cancelled-after-start"
                     mine = [st for st in rec.states if st.instance_id == ev["inst"]]
-                    if mine and any(st.instance_id != ev["inst"] and str(st.state_name) == "created"
-                                    and st.state_tick == mine[0].state_tick for st in rec.states):
-                        site += ":double-visit"     # the node was visited twice in the tick this invocation began
+                    others: dict[str, list] = {}
+                    for st in rec.states:
+                        if st.instance_id != ev["inst"]:
+                            others.setdefault(st.instance_id, []).append(st)
+                    if mine and any(sts[0].state_tick <= mine[0].state_tick and
+                                    not any(str(x.state_name) in ("started",) + CONCLUSIVE for x in sts)
+                                    for sts in others.values()):
+                        # an earlier visit of the node got its own invocation that never started: its request ran under
+                        # the id of this invocation (the node was visited twice before the first request was scheduled)
+                        site += ":double-visit"
+                    cmds = [st.command for st in mine if st.command is not None]
+                    if cmds and not any(c.is_cancelled() for c in cmds):
+                        site += ":command-not-cancelled"   # only the log says Cancelled, the command object was not cancelled
                 out.append((f"completed-instruction-shown-as-{item.state}:{cls}{site}",
                             what + f": the item of this invocation shows {item.state}; states {names}"))
         return out
